@@ -1235,11 +1235,6 @@ package gohlslib
 // C16: what one stream contributes to the multivariant playlist.
 //@ pred plURI(s *muxerStream, rawQuery string) string := ite(rawQuery != "", mediaPlaylistPath(s.id) + ("?" + rawQuery), mediaPlaylistPath(s.id))
 
-//@ func codecparams.Marshal
-//@   props C16
-//@   nosafety
-//@ end
-
 //@ func containsCodec
 //@   props C16
 //@   ensures result == exists(i, 0 <= i && i < len(cs) && cs[i] == c)
